@@ -21,7 +21,7 @@ def build_cases(tier, seed):
         prof = dict(PROFILE)
         prof["network"] = ["euclidean", "euclidean", "grid", "grid", "euclidean", "denver"][i % 6]
         ctrl = hostile_stack(p=[0.2, 0.35][i % 2], builtin=(i % 3 != 2))
-        cases.append(trace_case("C07", i, s, prof, ctrl, steps, ["C07"]))
+        cases.append(trace_case("C07", i, s, prof, ctrl, steps, ["C07"], opts=({"inject_requests": {"every": 6, "public": i % 10 == 7}} if i % 5 == 2 else {})))
     cases += systematic_cases("C07", tier, seed)
     if tier == "thorough":
         for w in ("denver_downtown/denver_demo.yaml", "denver_downtown/denver_demo_fleets.yaml"):
